@@ -35,6 +35,11 @@ def faithful (fuel : Nat) (t : PT) (paxes : List (Nat × Nat)) (vaxes : List Axi
   let target : PT := { physical := [], paxes := paxes, vaxes := vaxes, default := t.default }
   Eq.faithful fuel t target next && Eq.resolved fuel t target next
 
+/-- every requested physical axis occurs in some requested virtual axis (otherwise the inner `project` raises: hypothesis
+`hcover` of `C06p.projectPT_cells`) -/
+def covers (paxes : List (Nat × Nat)) (vaxes : List Axis) : Bool :=
+  paxes.all (fun q => vaxes.any (fun e => e.fv.contains q))
+
 def handle : List String → Option (Except String String)
   | "C06.projectPT" :: rest => some do
       let (t, pax, vax, next) ← Tok.run (do
@@ -42,7 +47,7 @@ def handle : List String → Option (Except String String)
         pure (t, p, a, n)) rest
       match projectPT FUEL t pax vax next with
       | none => pure "ValueError"
-      | some l => pure s!"ok {showList toString l} {showBool (faithful FUEL t pax vax next)}"
+      | some l => pure s!"ok {showList toString l} {showBool (faithful FUEL t pax vax next && covers pax vax)}"
   | _ => none
 
 end Fggs.Pj
